@@ -40,6 +40,19 @@ func init() {
 		add("Set‖Set(expiring)", CacheCfg{MaxSize: 2, Expiry: "writing", TTL: 100}, two, [][]string{{"set 1"}, {"set 3"}}, "native", pbRest, 16, budget)
 		// a read that finds the read buffer full asks for a drain (ring of 4 in the small-scope build)
 		add("Gets(full read buffer)‖Set", CacheCfg{MaxSize: 2}, two, [][]string{{"get 1", "get 1", "get 1", "get 1", "get 1"}, {"set 3"}}, "small", pbRest, 16, budget)
+		// systematic matrix: every kind of writer against every holder of the eviction lock, and writer pairs
+		writers := []string{"set 1", "set 3", "inv 1", "cw 1", "ci 2", "sia 3", "load 3 val"}
+		holders := []string{"invall", "coldest", "hottest", "getmax", "setmax 1", "setmax 9", "cleanup", "save"}
+		for _, w := range writers {
+			for _, h := range holders {
+				add("matrix:"+w+"‖"+h, CacheCfg{MaxSize: 2}, two, [][]string{{w}, {h}}, "native", pbRest, 4, budget)
+			}
+		}
+		for i, w := range writers {
+			for _, v := range writers[i:] {
+				add("matrix:"+w+"‖"+v, CacheCfg{MaxSize: 2}, two, [][]string{{w}, {v}}, "native", pbRest, 4, budget)
+			}
+		}
 		if thorough {
 			add("Set‖Set(expiry)", CacheCfg{MaxSize: 2, Expiry: "writing", TTL: 100}, two, [][]string{{"set 1"}, {"set 3"}}, "native", 2, 16, budget)
 			add("Set;Set‖Set", CacheCfg{MaxSize: 2}, two, [][]string{{"set 1", "set 4"}, {"set 3"}}, "native", 2, 16, budget)
